@@ -156,3 +156,21 @@ def minimise(case, runner, candidates, budget=300):
                 improved = True
                 break
     return case, used
+
+
+def drop_cycle_variants(case, key='cycles'):
+    """Cases with one (non-last) cycle removed; faults keep pointing at the same cycles."""
+    import copy as _c
+    cyc = case[key]
+    for i in range(len(cyc) - 1):
+        c = _c.deepcopy(case)
+        del c[key][i]
+        fs = []
+        for f in c.get('faults', []):
+            if f.get('at') is None or f['at'] < i:
+                fs.append(f)
+            elif f['at'] > i:
+                fs.append(dict(f, at=f['at'] - 1))
+        if 'faults' in c:
+            c['faults'] = fs
+        yield c
